@@ -151,6 +151,61 @@ def _task_special(_):
     return res
 
 
+def scale_values(kind, n):
+    """(signature, reference values) of a family member with n elements"""
+    if kind == 'ay':
+        return 'ay', [[i % 251 for i in range(n)]]
+    if kind == 'aq':
+        return 'yaq', [7, [(i * 7) % 65536 for i in range(n)]]
+    if kind == 'at':
+        return 'at', [[(i * 0x10001) % (1 << 64) for i in range(n)]]
+    if kind == 'as':
+        return 'as', [['s%d' % (i % 13) for i in range(n)]]
+    if kind == 'a(yx)':
+        return 'a(yx)', [[[i % 256, i - 5] for i in range(n)]]
+    if kind == 'a{us}':
+        return 'a{us}', [[[i, 'v%d' % (i % 7)] for i in range(n)]]
+    if kind == 'aay':
+        return 'aay', [[[i % 256] * (i % 3) for i in range(n)]]
+    if kind == 'av':
+        return 'av', [[R.Var('y', i % 256) if i % 2 else R.Var('s', 'x')
+                       for i in range(n)]]
+    if kind == 's':
+        return 'sy', [''.join(chr(97 + i % 26) for i in range(n)), 1]
+    if kind == 'aay-inner':
+        return 'aay', [[[1], [i % 256 for i in range(n)], [2]]]
+    raise ValueError(kind)
+
+
+SCALE_KINDS = ['ay', 'aq', 'at', 'as', 'a(yx)', 'a{us}', 'aay', 'av', 's',
+               'aay-inner']
+
+
+def _task_scale(task):
+    """element counts and string lengths around one-byte, page-size and
+    two-byte limits"""
+    from mcx import scale
+    quick, kind = task
+    res = core.Result()
+    for n in scale.ladder(8193 if quick else 65537):
+        sig, refvals = scale_values(kind, n)
+        ts = R.parse_sig(sig)
+        res.count('states')
+        res.count('nontrivial')
+        res.count('scale_cases')
+        for le in (True, False):
+            for off in (0, 1, 4):
+                r0 = core.Result()
+                one_case(r0, sig, ts, refvals, 'list', le, off)
+                for s, v in r0.violations.items():
+                    res.violation(s + '/n=%d' % n, v['what'][:300] + '...',
+                                  {'scale': [kind, n, le, off]}, size=n)
+                for k, c in r0.counts.items():
+                    if k != 'violating_cases':
+                        res.count(k, c)
+    return res
+
+
 def run(ctx):
     Kf, Kr = (3, 4) if ctx.quick else (4, 5)
     ctx.rule = (
@@ -162,7 +217,11 @@ def run(ctx):
         'occurs; x presentation styles (list / tuple / dbusOrder object + '
         'pair lists + bytearray / wrapper classes) x both byte orders x '
         'offsets 0..7 behind 0xAA filler; plus deep/long families (32-deep '
-        'arrays and structs, 255-byte signature) and descriptor cases. '
+        'arrays and structs, 255-byte signature) and descriptor cases; plus '
+        'arrays (of bytes, 16/64-bit integers, strings, structs, dict '
+        'entries, arrays, variants) and strings with every element count / '
+        'length of the ladder 127..257, 1023..1025, 4095..4097, 8191..8193 '
+        '(thorough: 65534..65537). '
         'state = (signature, value assignment); transition = one marshal or '
         'unmarshal call; non-trivial = has a container, a variant or more '
         'than one argument' % (Kf, space.FULL, Kr, space.REDUCED))
@@ -174,10 +233,16 @@ def run(ctx):
         '; doubles compare by bit pattern']
     ctx.map(_task, CS.partition(Kf, Kr, max(ctx.jobs * 4, 1)))
     ctx.map(_task_special, [0])
+    ctx.map(_task_scale, [(ctx.quick, k) for k in SCALE_KINDS])
 
 
 def replay(data):
     res = core.Result()
+    if 'scale' in data:
+        kind, n, le, off = data['scale']
+        sig, refvals = scale_values(kind, n)
+        one_case(res, sig, R.parse_sig(sig), refvals, 'list', le, off)
+        return [(s, v['what'][:300]) for s, v in res.violations.items()]
     ts = R.parse_sig(data['sig'])
     from mcx.refcodec import Var  # noqa: used by eval below
     nan = float('nan')
